@@ -76,6 +76,9 @@ func AllScenarios() []*Scenario {
 		{Name: "empty-key-race", Group: "con", Clients: [][]Tran{
 			{upd(I("e", "1"))},
 			{upd(I("e", "2"))}}},
+		{Name: "composite-unique-empty-first-column-race", Group: "con", Init: map[string][]Row{"w": {{"5", "", ""}}}, Clients: [][]Tran{
+			{upd(I("w", "8", "", "y"), I("w", "1", "", ""))},
+			{upd(I("w", "9", "", "y"))}}},
 		{Name: "update-into-same-key", Group: "con", Init: t3, Clients: [][]Tran{
 			{upd(U("t", "1", "3", "1", "1"))},
 			{upd(U("t", "2", "3", "2", "2"))}}},
